@@ -32,6 +32,9 @@ type Scenario struct {
 	// Require lists op kinds that must have been intercepted at least once in every execution
 	// (instrumentation assertion).
 	Require []vs.OpKind
+	// SpinClass, when set: an execution in which a thread busy-waited on another one (see vs.Sched.SpinWaits) and
+	// whose Check reports nothing is a violation of this class (waiting by polling is waiting)
+	SpinClass string
 }
 
 // Exec is a finished execution.
@@ -76,6 +79,9 @@ func runOnce(sc *Scenario, prefix []int) runOut {
 		}
 		// Check runs with the scheduler still installed (setup-like mode: no scheduling)
 		out.outcome, out.class, out.violation = inst.Check(&Exec{S: s})
+		if out.violation == "" && sc.SpinClass != "" && s.SpinWaits > 0 {
+			out.outcome, out.class, out.violation = "busy-wait", sc.SpinClass, fmt.Sprintf("scenario %s: %s", sc.Name, s.SpinInfo)
+		}
 	}()
 	return out
 }
